@@ -190,11 +190,11 @@ def run(cx):
         oks = cx.returns(e, r'^Result::Ok\(')
         for s in oks:
             cx.check('C03.T1', bool(re.search(r',Vec::with_capacity\(512\)\)\)$', s.term)), e.path, s.key(), 'returns-the-encoded-buffer', s.term[:160], s.loc)
-    h = cx.fn('C03.T1', '<hickory_server::zone_handler::catalog::Catalog as hickory_server::server::request_handler::RequestHandler>::handle_request::{closure#0}')
+    h = cx.fn('C03.T1', '<hickory_server::zone_handler::catalog::Catalog as hickory_server::server::request_handler::RequestHandler>::handle_request::{closure@pin#0}')
     if h:
         sp = cx.calls(h, r'Edns::set_max_payload$')
         cx.check('C03.T1', len(sp) == 1 and bool(re.search(r'Ord::max\(Edns::max_payload\(\^arg2\.edns@Some\.0\),512\)\)$', sp[0].term)), h.path, 'call', 'advertise-max(request payload,512)', sp[0].term if sp else 'none')
-    r = cx.fn('C03.T1', '<hickory_server::server::response_handler::ResponseHandle as hickory_server::server::response_handler::ResponseHandler>::send_response::{closure#0}')
+    r = cx.fn('C03.T1', '<hickory_server::server::response_handler::ResponseHandle as hickory_server::server::response_handler::ResponseHandler>::send_response::{closure@pin#0}')
     if r:
         snd = cx.calls(r, r'DnsStreamHandle>::send$|BufDnsStreamHandle::send$')
         ok = len(snd) == 1 and bool(re.search(r'SerialMessage::new\(try\(MessageResponse::encode\(.*,\^?arg1\.protocol\)\)@Continue\.0\.1,\^?arg1\.dst\)', snd[0].term))
